@@ -655,3 +655,7 @@ def check(run, prog, tier):
     import rules.fitrule as fitrule
     run.rule("C01-q", "every comparison of a snprintf()/vsnprintf() result with the size handed to the call: the side taken as 'fits' contains only results <= size - 1; a text of exactly `size` characters is truncated and must not be used as complete (path names, log lines, error messages)", 5)
     fitrule.check(run, prog, "C01-q", lambda f: True, 5, 5, "the truncated text is used as if it were complete")
+
+    # ---- C01-r count pass / fill pass agreement
+    import rules.C01r as c01r
+    c01r.check(run, prog, tier)
